@@ -12,6 +12,7 @@ ASSUMPTIONS = [
     "the absence of data races at the level of the Go memory model cannot be exhibited by a model: shown by the lock discipline (every access to baseInfos is under mu) and searched dynamically with the race detector (partial)",
     "sync.Mutex provides mutual exclusion (standard library, modelled)",
 ]
+HANDLE_METHODS = ("read", "write", "close", "hstat", "readdir", "readdirnames", "sync", "seek", "truncate", "writestring", "readat", "writeat")
 LOCKED = ("create", "openwrite", "mkdir", "mkdirall", "remove", "removeall", "rename", "symlink", "chmod", "chown", "lchown", "chtimes", "forcebackup", "rollback")
 
 
@@ -28,6 +29,11 @@ def oracle(case, a):
         # apart from writes through a returned handle, every primitive call of a locked
         # operation lies inside its critical section
         return "%s issues its primitive call %d without holding the lock" % (aop[0], k)
+    if aop[0] in ("create", "openwrite") and p.get("held") != "true" and p.get("at", "-") != "-" \
+            and p["at"].split(".")[-1] not in HANDLE_METHODS:
+        # Create/OpenFile: only calls on a file handle can lie outside the critical section (the
+        # user's writes through the returned handle); a call on the filesystem itself cannot
+        return "%s issues its primitive call %d (%s) without holding the lock" % (aop[0], k, p["at"])
     if bop[0] in LOCKED and p.get("held") == "true":
         # (a pause at a Write/Close on the handle a finished OpenFile returned is outside the critical section)
         if p.get("b_ticks") != "0" or p.get("b_done") != "false":
@@ -72,6 +78,19 @@ def run(ctx):
             if touched and opb[0] not in ("rollback",) and len(opb) > 1:
                 opb = tuple([opb[0], rnd.choice(touched)] + list(opb[2:]))
         cases.append(t2.Case("c10-%d" % i, cfg, inits, new_ops, meta={"pause": (ai, k, ai + 1)}))
+    # targeted: a truncating OpenFile / Create of an existing file held at EVERY one of its first calls
+    # (path resolution, the backup copy, the base OpenFile itself) while a Rollback or a Chmod of the
+    # same path is issued: all of these calls lie inside the critical section
+    kmax = 20 if tier == "quick" else 32
+    for ci, cfg in enumerate(t2.CONFIGS):
+        inits, ops = t2.gen_history(rnd, cfg, nops=0)
+        tf = b"/ttf%d" % ci
+        inits = inits + [("F", t2.world_path(cfg, tf), 0o644, 1000, 1001, 90, "Boriginal")]
+        for k in range(kmax):
+            for bi_, opb in enumerate([("rollback",), ("chmod", tf, "600")]):
+                opa = ("openwrite", tf, 0x241, "644", "Bnew") if (k + bi_) % 2 == 0 else ("create", tf, "Bnew")
+                new_ops = [ops[0], opa, opb, ("dump",), ("rollback",)]
+                cases.append(t2.Case("c10-open-%d-%d-%d" % (ci, k, bi_), cfg, inits, new_ops, meta={"pause": (1, k, 2)}))
     # the model runs the same two operations one after the other: with mutual exclusion the
     # concurrent run must have the results and the final tree of the serial run A;B
     mcases = [c for c in cases if c.ops[c.meta["pause"][2]][0] in LOCKED]
